@@ -791,12 +791,19 @@ impl endpoint::Session for Session {
         let input_handle = InputHandle::from(transfer.handle.clone());
         match self.link_by_input_handle.get_mut(&input_handle) {
             Some(link_relay) => {
-                let id_and_tag = link_relay.on_incoming_transfer(transfer, payload).await?;
-
-                // FIXME: If the unsettled map needs this
-                if let Some((delivery_id, delivery_tag)) = id_and_tag {
-                    self.delivery_tag_by_id
-                        .insert((Role::Sender, delivery_id), (input_handle, delivery_tag));
+                match link_relay.on_incoming_transfer(transfer, payload).await {
+                    // FIXME: If the unsettled map needs this
+                    Ok(Some((delivery_id, delivery_tag))) => {
+                        self.delivery_tag_by_id
+                            .insert((Role::Sender, delivery_id), (input_handle, delivery_tag));
+                    }
+                    Ok(None) => {}
+                    // The link endpoint has already been dropped (e.g. a `Receiver` that
+                    // was simply dropped: its closing detach has not reached the peer yet).
+                    // What the peer still sends for the handle is discarded; this must
+                    // not tear down the session.
+                    Err(crate::link::LinkRelayError::UnattachedHandle) => {}
+                    Err(error) => return Err(error.into()),
                 }
             }
             None => return Err(SessionInnerError::UnattachedHandle),
